@@ -111,10 +111,10 @@ theorem matcher_rows_are_candset_rows (a : MatcherArgs) (t : Option TokObj) (tok
   · simp [matcherOutRow, projectedRow, outAttrs, keyOf, valOf, MatcherArgs.toTableArgs]
   · intro ls' hls' he
     rw [hkeys] at he
-    exact List.inj_on_of_nodup_map hV.lKeyValid.1 hls' hls (he.trans hkl.symm)
+    exact List.inj_on_of_nodup_map hV.lKeyValid.nodup hls' hls (he.trans hkl.symm)
   · intro rs' hrs' he
     rw [hkeys] at he
-    exact List.inj_on_of_nodup_map hV.rKeyValid.1 hrs' hrs (he.trans hkr.symm)
+    exact List.inj_on_of_nodup_map hV.rKeyValid.nodup hrs' hrs (he.trans hkr.symm)
 
 /-- EMPTY CANDSET: `apply_matcher` returns the candset object itself (`if candset.empty: return candset`) — its own
     columns, WITHOUT a `_sim_score` column even when `out_sim_score` is set. -/
